@@ -20,4 +20,5 @@ for d in checks/c*/; do
     go build -o "$W/x.bin" "./$d"
   fi
 done
+tools/litmus.sh > .work/litmus.log 2>&1 || echo "WARNING: litmus conformance suite reported failures (see tools/litmus.sh)"
 echo setup ok
